@@ -341,7 +341,7 @@ fn worker(s: Shared, id: Int64, n: Int64, w: %s) {
     extra: Array[Int64],
 }
 
-fn worker(s: Shared, id: Int64, n: Int64, w: %s) {
+fn worker(s: Shared, id: Int64, n: Int64) {
     let mut i = 0;
     let mut tickets = 0;
     while i < n {
@@ -360,10 +360,13 @@ fn worker(s: Shared, id: Int64, n: Int64, w: %s) {
     }
     s.extra(id) = tickets;
 }
-""" % (aty, ity, suf, conv))
+""" % (aty, suf, conv))
         k = sum(ns)
         extra = k * (k - 1) // 2
-    calls = ["worker(s, %d, %d, %d%s)" % (i, ns[i], ws[i], suf) for i in range(t)]
+    if mode == "add":
+        calls = ["worker(s, %d, %d, %d%s)" % (i, ns[i], ws[i], suf) for i in range(t)]
+    else:
+        calls = ["worker(s, %d, %d)" % (i, ns[i]) for i in range(t)]
     body, order = _spawn_join(rng, calls)
     src.append("fn main() {")
     src.append("    let s = Shared(cell = %s::new(0%s), extra = Array[Int64]::zero(%d));" % (aty, suf, t))
